@@ -93,6 +93,16 @@ def handmade():
         'cmd --a=(x "dx" | y) --b=(x | y "dy");',
         'cmd [--o=(x|y)]... | (--o=(x|y) k)...;',
         'cmd a;\ncmd b c;\ncmd [d]...;',
+        'cmd a[b] x | b[a] y;',                            # witness of the fixed interning defect
+        'cmd --o=[a]z | --p=<F>;',
+        'cmd [-v]... (add <F>... | rm [-f] <F>);',
+        'cmd <A>;\n<A> ::= --x=<B> | <B>;\n<B> ::= (p|q)[,r];',
+        'cmd (a || a) b;',                                 # one text, two levels
+        'cmd (a "d1" | a "d2") b;',                        # one text, two descriptions
+        'cmd --k=(a|b)... x;',
+        'cmd (x | y)... "dd" z;',
+        'cmd -(a|b)(c|d) | -(a|b)(d|c);',
+        'cmd <A>... ;\n<A> ::= [<A2>] k;\n<A2> ::= m || n;',
     ]
     return [('hand', t.encode()) for t in texts]
 
